@@ -90,10 +90,20 @@ pub(super) fn with_ascending_lists(f: &Facts) -> Facts {
     g
 }
 
+/// How often decode_tolerant forgave a refusal because the ascending file was accepted (one process per worker, so
+/// this is a per-worker counter; the property that called decode_tolerant books it with take_ascending_retries()).
+static ASCENDING_RETRY_ACCEPTED: std::sync::atomic::AtomicU64 = std::sync::atomic::AtomicU64::new(0);
+
+/// Number of forgiven refusals since the last call (to be booked by the caller: ctx.bump("refused: ...", n)).
+pub(super) fn take_ascending_retries() -> u64 {
+    ASCENDING_RETRY_ACCEPTED.swap(0, std::sync::atomic::Ordering::Relaxed)
+}
+
 /// Encode (independent encoder) and decode. A decoder may insist on ascending ids inside a record (no property
 /// says that it must take them in any order): when the file is refused AND some list in it is not ascending, the
 /// same facts are written once more with ascending lists and that file decides. Err(what the decoder said).
 pub(super) fn decode_tolerant(pf: &Facts, o: &crate::encode::EncOpts) -> Result<Ontology, String> {
+    use std::sync::atomic::Ordering::Relaxed;
     let flat = |r: Result<Result<Ontology, String>, String>| -> Result<Ontology, String> {
         match r {
             Ok(Ok(o)) => Ok(o),
@@ -108,7 +118,12 @@ pub(super) fn decode_tolerant(pf: &Facts, o: &crate::encode::EncOpts) -> Result<
             if asc == *pf {
                 Err(e)
             } else {
-                flat(drive::from_bytes(&crate::encode::encode(&asc, o))).map_err(|e2| format!("{e2} (ids inside the records ascending; with the ids in supply order: {e})"))
+                let second = flat(drive::from_bytes(&crate::encode::encode(&asc, o))).map_err(|e2| format!("{e2} (ids inside the records ascending; with the ids in supply order: {e})"));
+                if second.is_ok() {
+                    // forgiven, but counted: the claim "decoded with the ids in supply order" shrinks by this file
+                    ASCENDING_RETRY_ACCEPTED.fetch_add(1, Relaxed);
+                }
+                second
             }
         }
     }
@@ -477,13 +492,13 @@ pub fn run(ctx: &mut Ctx) {
                 let (f, added) = term_facts(&seq);
                 ctx.transitions(f.n_steps() + 4 * borders.len() as u64);
                 ctx.exec();
-                ctx.validated();
                 match drive::build(&f, Mode::Minimal) {
                     // (refusing a second new_term for one id, or HP:0000000 as a term, is not judged)
                     Err(_) if added.len() < seq.len() => ctx.bump("construction_refused_for_a_repeated_id", 1),
                     Err(_) if ids.contains(&0) => ctx.bump("construction_refused_with_term_id_0", 1),
                     Err(e) => ctx.violation("Builder::new_term", "construction fails", json!({"new_term calls": seq, "observed": e})),
                     Ok(ont) => {
+                        ctx.validated();
                         let r = guard(|| {
                             check_keys(&ont, &added, borders.iter().copied()).or_else(|| check_iteration(&ont, &added)).or_else(|| match &prev {
                                 Some((pont, padded, _)) => check_interleaved(pont, padded, &ont, &added, &borders),
@@ -557,18 +572,29 @@ pub fn run(ctx: &mut Ctx) {
             ctx.state();
             ctx.nontrivial();
             let seq: Vec<(u32, String)> = ids.iter().map(|i| (*i, format!("T{i}"))).collect();
-            let (f, added) = term_facts(&seq);
+            let (mut f, mut added) = term_facts(&seq);
             ctx.transitions(f.n_steps() + keys.len() as u64);
             ctx.execs(keys.len() as u64);
-            ctx.validateds(keys.len() as u64);
-            match drive::build(&f, Mode::Minimal) {
-                Err(_) if ids.contains(&0) => ctx.bump("construction_refused_with_term_id_0", 1),
+            let mut built = drive::build(&f, Mode::Minimal);
+            if built.is_err() && ids.contains(&0) {
+                // (a builder that refuses HP:0000000 as a term is not judged - but all three many-block ontologies
+                // hold id 0 (2^0 - 1): the same ids without it, in the same order, are built and judged strictly,
+                // so that a failure with another cause is not excused along with it)
+                ctx.bump("construction_refused_with_term_id_0", 1);
+                f.terms.retain(|t| t.id != 0);
+                added.remove(&0);
+                built = drive::build(&f, Mode::Minimal);
+            }
+            match built {
                 Err(e) => ctx.violation("Builder::new_term", "construction fails", json!({"term_ids_added": ids, "insertion_order": order, "observed": e})),
-                Ok(ont) => match guard(|| check_keys(&ont, &added, keys.iter().copied()).or_else(|| check_iteration(&ont, &added))) {
-                    Ok(None) => {}
-                    Ok(Some((site, sig, det))) => ctx.violation(&site, &sig, json!({"term_ids_added": ids, "insertion_order": order, "difference": det})),
-                    Err(p) => ctx.violation("Ontology::hpo", "panics", json!({"term_ids_added": ids, "insertion_order": order, "observed": p})),
-                },
+                Ok(ont) => {
+                    ctx.validateds(keys.len() as u64);
+                    match guard(|| check_keys(&ont, &added, keys.iter().copied()).or_else(|| check_iteration(&ont, &added))) {
+                        Ok(None) => {}
+                        Ok(Some((site, sig, det))) => ctx.violation(&site, &sig, json!({"term_ids_added": ids, "insertion_order": order, "difference": det})),
+                        Err(p) => ctx.violation("Ontology::hpo", "panics", json!({"term_ids_added": ids, "insertion_order": order, "observed": p})),
+                    }
+                }
             }
             ctx.sample(|| json!({"ids": ids.len(), "insertion_order": order, "keys": keys.len()}));
         }
@@ -601,9 +627,11 @@ pub fn run(ctx: &mut Ctx) {
                     let added = added_from_facts(&pf);
                     ctx.transitions(pf.n_steps() + keys.len() as u64);
                     ctx.exec();
-                    ctx.validated();
                     match decode_tolerant(&pf, &crate::encode::EncOpts::list_order(version)) {
-                        Ok(ont) => match guard(|| check_keys(&ont, &added, keys.iter().copied()).or_else(|| check_iteration(&ont, &added))) {
+                        Ok(ont) => match {
+                            ctx.validated();
+                            guard(|| check_keys(&ont, &added, keys.iter().copied()).or_else(|| check_iteration(&ont, &added)))
+                        } {
                             Ok(None) => {}
                             Ok(Some((site, sig, det))) => ctx.violation(&site, &format!("[decoded from binary v{version}] {sig}"), json!({"family": what, "facts": pf.to_json(), "term_record_order": p, "difference": det})),
                             Err(pn) => ctx.violation("Ontology::hpo", "panics", json!({"family": what, "facts": pf.to_json(), "observed": pn})),
@@ -623,7 +651,6 @@ pub fn run(ctx: &mut Ctx) {
                     let tadded = added_from_facts(&tf);
                     ctx.transitions(tf.n_steps() + keys.len() as u64);
                     ctx.exec();
-                    ctx.validated();
                     // stanza layouts alternate: plain, extra tags, tags (and the flags) between id and name
                     let mut jo = crate::jax::JaxOpts::default();
                     match (p[0] + p[n - 1]) % 3 {
@@ -632,7 +659,10 @@ pub fn run(ctx: &mut Ctx) {
                         _ => {}
                     }
                     match crate::jax::load_with(&crate::jax::render(&tf, &jo), false, crate::jax::OtherGeneFile::Absent) {
-                        Ok(Ok(ont)) => match guard(|| check_keys(&ont, &tadded, keys.iter().copied()).or_else(|| check_iteration(&ont, &tadded))) {
+                        Ok(Ok(ont)) => match {
+                            ctx.validated();
+                            guard(|| check_keys(&ont, &tadded, keys.iter().copied()).or_else(|| check_iteration(&ont, &tadded)))
+                        } {
                             Ok(None) => {}
                             Ok(Some((site, sig, det))) => ctx.violation(&site, &format!("[loaded from hp.obo] {sig}"), json!({"family": what, "facts": tf.to_json(), "stanza_order": p, "stanza_layout": format!("{:?}", jo.distractors), "difference": det})),
                             Err(pn) => ctx.violation("Ontology::hpo", "panics", json!({"family": what, "facts": tf.to_json(), "observed": pn})),
@@ -713,9 +743,9 @@ pub fn run(ctx: &mut Ctx) {
                     let added = added_from_facts(&pf);
                     ctx.transitions(pf.n_steps() + keys.len() as u64);
                     ctx.execs(keys.len() as u64);
-                    ctx.validateds(keys.len() as u64);
                     match decode_tolerant(&pf, &crate::encode::EncOpts::list_order(version)) {
                         Ok(ont) => {
+                            ctx.validateds(keys.len() as u64);
                             let r = guard(|| {
                                 let first = check_keys(&ont, &added, keys.iter().copied()).or_else(|| check_iteration(&ont, &added));
                                 if first.is_none() && version == 3 && !descending {
@@ -738,13 +768,15 @@ pub fn run(ctx: &mut Ctx) {
                 let added = added_from_facts(&g);
                 ctx.transitions(g.n_steps() + keys.len() as u64);
                 ctx.execs(keys.len() as u64);
-                ctx.validateds(keys.len() as u64);
                 let mut jo = crate::jax::JaxOpts::default();
                 if mask % 2 == 1 {
                     jo.distractors = vec![crate::jax::Distractor::ExtraTags];
                 }
                 match crate::jax::load_with(&crate::jax::render(&g, &jo), descending, crate::jax::OtherGeneFile::Absent) {
-                    Ok(Ok(ont)) => match guard(|| check_keys(&ont, &added, keys.iter().copied()).or_else(|| check_iteration(&ont, &added))) {
+                    Ok(Ok(ont)) => match {
+                        ctx.validateds(keys.len() as u64);
+                        guard(|| check_keys(&ont, &added, keys.iter().copied()).or_else(|| check_iteration(&ont, &added)))
+                    } {
                         Ok(None) => {}
                         Ok(Some((site, sig, det))) => ctx.violation(&site, &format!("[loaded from hp.obo] {sig}"), json!({"facts": g.to_json(), "stanzas": if descending { "descending ids" } else { "ascending ids" }, "difference": det})),
                         Err(pn) => ctx.violation("Ontology::hpo", "[loaded from hp.obo] panics", json!({"facts": g.to_json(), "observed": pn})),
@@ -1239,4 +1271,8 @@ pub fn run(ctx: &mut Ctx) {
         }
     }
 
+    let n = take_ascending_retries();
+    if n > 0 {
+        ctx.bump("refused: ids inside a record not ascending, the same facts with ascending lists accepted", n);
+    }
 }
